@@ -1,5 +1,7 @@
 import GrmVerif.Extracted
-import GrmVerif.Props.C19
+import GrmVerif.Props.C09
 import GrmVerif.Props.C17
-import GrmVerif.Drive.C19
+import GrmVerif.Props.C19
+import GrmVerif.Drive.C09
 import GrmVerif.Drive.C17
+import GrmVerif.Drive.C19
